@@ -108,6 +108,18 @@ def run(data):
                 raise RuntimeError(k)
             before = len(tracked)
             rec["obj"] = num(o)
+            # every way of looking the object up by a name it reports gives that object: the class registry, named(), the string form
+            # the pydantic validators accept
+            bad_ = []
+            for nm_ in (list(getattr(o, "names", ())) if kind == "unit" else ([o.name] if getattr(o, "name", None) else []))[:3]:
+                try:
+                    routes = {"_by_name": Cls._by_name.get(nm_), "pydantic": Cls._pydantic_validate(nm_)}
+                    if hasattr(Cls, "named"): routes["named"] = Cls.named(nm_)
+                    for rname, got in routes.items():
+                        if got is not o: bad_.append([rname, nm_])
+                except Exception as ex_:  # noqa
+                    bad_.append(["raises:" + implib.errclass(ex_), nm_])
+            if bad_: rec["lookup_disagrees"] = bad_[:4]
             rec["created"] = rec["obj"] >= before
             # lookups by the declared name / symbol and what the object reports
             if kind == "unit":
